@@ -1408,18 +1408,24 @@ theorem tlLoop_length : ∀ (L : List Layer) (idx : Nat) (cur : UInt8) (done : B
       | nil => simp; omega
       | cons a r => simp; omega
 
-/-- every allocation that passes validation is marshalled into exactly `requiredLen` bytes -/
-theorem marshal_ok_of_valid (v : VLA) (hc : 1 ≤ v.count ∧ v.count ≤ 4) (hr : 0 ≤ v.rid ∧ v.rid < v.count)
-    (hp : preprocess v.count v.layers [] = none) : ∃ b, marshal v = .ok b := by
+/-- the bytes Marshal writes once validation has passed -/
+def marshalBody (v : VLA) : Bytes :=
+  (byteOfInt (v.rid * 64) ||| (byteOfInt (v.count - 1) <<< 4) |||
+      commonSLBM ((List.range v.count.toNat).map (slMB v.layers))) ::
+    ((if commonSLBM ((List.range v.count.toNat).map (slMB v.layers)) == 0
+        then maskBytes ((List.range v.count.toNat).map (slMB v.layers)) else []) ++
+      tlLoop (tableOrder v.count.toNat v.layers) 0 0 [] ++
+      (encodedRates (tableOrder v.count.toNat v.layers)).flatten ++
+      (if v.hasRes then v.layers.flatMap resBytes else []))
+
+/-- `requiredLen` is exactly the number of bytes written (sorted layers or not) -/
+theorem requiredLen_eq_body (v : VLA) (hc : 1 ≤ v.count ∧ v.count ≤ 4)
+    (hp : preprocess v.count v.layers [] = none) :
+    requiredLen v (commonSLBM ((List.range v.count.toNat).map (slMB v.layers)))
+      (encodedRates (tableOrder v.count.toNat v.layers)) = (marshalBody v).length := by
   obtain ⟨hall, hpw⟩ := (preprocess_none_iff v.count v.layers []).mp hp
-  have hcount : (decide (v.count ≤ 0) || decide (v.count > 4)) = false := by
-    simp only [Bool.or_eq_false_iff, decide_eq_false_iff_not]; omega
-  have hrid : (decide (v.rid < 0) || decide (v.rid ≥ v.count)) = false := by
-    simp only [Bool.or_eq_false_iff, decide_eq_false_iff_not]; omega
   have htab := tableOrder_length v.layers v.count (fun l hl => (hall l hl).1) hpw
-  simp only [marshal, hcount, hrid, hp, Bool.false_eq_true, if_false]
-  refine ⟨_, fit_exact _ _ _ rfl ?_⟩
-  simp only [requiredLen, encodedRates_lengths, tdiv_len, List.length_cons, List.length_append,
+  simp only [marshalBody, requiredLen, encodedRates_lengths, tdiv_len, List.length_cons, List.length_append,
     tlLoop_length _ 0 0 [] (by omega), List.length_nil, htab]
   have e1 : ((commonSLBM ((List.range v.count.toNat).map (slMB v.layers)) != 0)) =
       !(commonSLBM ((List.range v.count.toNat).map (slMB v.layers)) == 0) := rfl
@@ -1443,6 +1449,20 @@ theorem marshal_ok_of_valid (v : VLA) (hc : 1 ≤ v.count ∧ v.count ≤ 4) (hr
     cases hh : v.hasRes with
     | false => simp <;> omega
     | true => simp <;> omega
+
+/-- every allocation that passes validation is marshalled into exactly `requiredLen` bytes -/
+theorem marshal_valid (v : VLA) (hc : 1 ≤ v.count ∧ v.count ≤ 4) (hr : 0 ≤ v.rid ∧ v.rid < v.count)
+    (hp : preprocess v.count v.layers [] = none) : marshal v = .ok (marshalBody v) := by
+  have hcount : (decide (v.count ≤ 0) || decide (v.count > 4)) = false := by
+    simp only [Bool.or_eq_false_iff, decide_eq_false_iff_not]; omega
+  have hrid : (decide (v.rid < 0) || decide (v.rid ≥ v.count)) = false := by
+    simp only [Bool.or_eq_false_iff, decide_eq_false_iff_not]; omega
+  simp only [marshal, hcount, hrid, hp, Bool.false_eq_true, if_false]
+  exact fit_exact _ _ _ rfl (requiredLen_eq_body v hc hp)
+
+theorem marshal_ok_of_valid (v : VLA) (hc : 1 ≤ v.count ∧ v.count ≤ 4) (hr : 0 ≤ v.rid ∧ v.rid < v.count)
+    (hp : preprocess v.count v.layers [] = none) : ∃ b, marshal v = .ok b :=
+  ⟨_, marshal_valid v hc hr hp⟩
 
 theorem marshal_ne_panic (v : VLA) : marshal v ≠ .panic := by
   by_cases hc : v.count ≤ 0 ∨ v.count > 4
